@@ -30,6 +30,8 @@ type vDriver struct {
 	recvErr    error
 	concurrent int // number of calls in flight (for the no-overlap check of the serial contract)
 	lastRecvEnd int64 // virtual time at which the latest ReceiveProbe call returned
+	maxJunk     int   // unrelated / malformed packets the network may deliver (each ends a poll early with a retryable error)
+	junk        int
 }
 
 var errVSend = errors.New("model send failure")
@@ -66,6 +68,14 @@ func (d *vDriver) ReceiveProbe(timeout time.Duration) (*ProbeResponse, error) {
 		// beyond the exploration bound the network stays silent
 		V.Sleep(timeout)
 		return nil, &ReceiveProbeNoPktError{Err: errors.New("silence")}
+	}
+	if d.junk < d.maxJunk && V.Bool("junk") {
+		// an unrelated packet: the poll ends at once or mid-interval with a retryable "bad packet" error
+		d.junk++
+		if V.Bool("junkMidInterval") {
+			V.Sleep(timeout / 2)
+		}
+		return nil, &BadPacketError{Err: errors.New("unrelated packet")}
 	}
 	if d.replies < d.maxReplies && len(d.sent) > 0 && V.Bool("reply") {
 		// a reply to one of the probes sent so far arrives after a symbolic part of the poll interval
@@ -135,7 +145,7 @@ func vSameHop(a, b *ProbeResponse) bool {
 func Verif_Engine_parallel() {
 	min := uint8(V.ParamInt("min", 1))
 	max := min + uint8(V.ParamInt("W", 2)) - 1
-	d := &vDriver{parallel: true, min: min, max: max, maxReplies: V.ParamInt("replies", 2), maxRecv: V.ParamInt("maxRecv", 0)}
+	d := &vDriver{parallel: true, min: min, max: max, maxReplies: V.ParamInt("replies", 2), maxRecv: V.ParamInt("maxRecv", 0), maxJunk: V.ParamInt("junk", 0)}
 	p := TracerouteParallelParams{TracerouteParams: vParams(min, max)}
 	start := V.NowNs()
 	res, err := TracerouteParallel(context.Background(), d, p)
@@ -202,7 +212,7 @@ func Verif_Engine_parallel() {
 func Verif_Engine_serial() {
 	min := uint8(V.ParamInt("min", 1))
 	max := min + uint8(V.ParamInt("W", 2)) - 1
-	d := &vDriver{parallel: false, min: min, max: max, maxReplies: V.ParamInt("replies", 2)}
+	d := &vDriver{parallel: false, min: min, max: max, maxReplies: V.ParamInt("replies", 2), maxJunk: V.ParamInt("junk", 0)}
 	p := TracerouteSerialParams{TracerouteParams: vParams(min, max)}
 	start := V.NowNs()
 	res, err := TracerouteSerial(context.Background(), d, p)
